@@ -137,8 +137,13 @@ func runC19(c *Ctx) {
 					continue
 				}
 				if w == "OpenFile" {
-					// only truncating opens matter
-					if flags, ok := core.ConstInt(call.Call.Args[1]); !ok || flags&0x200 == 0 { // O_TRUNC on linux
+					// opens for writing matter: O_TRUNC truncates, O_WRONLY/O_RDWR without O_APPEND overwrite in place
+					flags, ok := core.ConstInt(call.Call.Args[1])
+					if !ok {
+						continue
+					}
+					writes := flags&0x3 != 0 // O_WRONLY(1) / O_RDWR(2) on linux
+					if !(flags&0x200 != 0 || (writes && flags&0x400 == 0)) { // O_TRUNC, or writable and not O_APPEND
 						continue
 					}
 				}
@@ -209,7 +214,7 @@ func c19Helper(c *Ctx, p *core.Prog, h *ssa.Function, fns []*ssa.Function) {
 			default:
 				if f := call.Call.StaticCallee(); f != nil && f.Signature.Recv() != nil && strings.HasSuffix(f.Signature.Recv().Type().String(), "os.File") {
 					switch f.Name() {
-					case "Write", "WriteString":
+					case "Write", "WriteString", "WriteAt", "Truncate", "ReadFrom":
 						writes = append(writes, call)
 					case "Close":
 						closes = append(closes, call)
@@ -252,6 +257,19 @@ func c19Helper(c *Ctx, p *core.Prog, h *ssa.Function, fns []*ssa.Function) {
 		}
 		if !okC {
 			probs = append(probs, "os.Rename is reachable although the Close of the temporary failed or was not executed")
+		}
+		// the only file the helper writes is the temporary
+		for _, w := range writes {
+			if len(w.Call.Args) == 0 {
+				continue
+			}
+			fromTemp := false
+			if ex, ok := w.Call.Args[0].(*ssa.Extract); ok && ex.Tuple == ssa.Value(createTemp) {
+				fromTemp = true
+			}
+			if !fromTemp {
+				probs = append(probs, "the helper writes to a file that is not its temporary at "+p.Pos(w.Pos())+": the target itself is modified in place")
+			}
 		}
 		// every error return after CreateTemp removes the temporary
 		for _, b := range h.Blocks {
